@@ -50,6 +50,31 @@ HIGHER_ORDER = {
     "std::result::Result::<T, E>::map": (0, 1),
     "std::result::Result::<T, E>::unwrap_or_else": (0, 1),
     "std::result::Result::<T, E>::or": (0, 0),
+    # further std combinators (each closure is called at most once; which of two is decided by the value)
+    "std::result::Result::<T, E>::map_err": (0, 1),
+    "std::result::Result::<T, E>::and_then": (0, 1),
+    "std::result::Result::<T, E>::or_else": (0, 1),
+    "std::result::Result::<T, E>::map_or": (0, 1),
+    "std::result::Result::<T, E>::map_or_else": (0, 1),
+    "std::result::Result::<T, E>::is_ok_and": (0, 1),
+    "std::result::Result::<T, E>::is_err_and": (0, 1),
+    "std::result::Result::<T, E>::inspect": (0, 1),
+    "std::result::Result::<T, E>::inspect_err": (0, 1),
+    "std::option::Option::<T>::and_then": (0, 1),
+    "std::option::Option::<T>::or_else": (0, 1),
+    "std::option::Option::<T>::map_or_else": (0, 1),
+    "std::option::Option::<T>::ok_or_else": (0, 1),
+    "std::option::Option::<T>::filter": (0, 1),
+    "std::option::Option::<T>::is_some_and": (0, 1),
+    "std::option::Option::<T>::is_none_or": (0, 1),
+    "std::option::Option::<T>::inspect": (0, 1),
+    "std::option::Option::<T>::get_or_insert_with": (0, 1),
+    "std::bool::<impl bool>::then": (0, 1),
+    "std::iter::Iterator::try_for_each": (0, None),
+    "std::iter::Iterator::try_fold": (0, None),
+    "std::iter::Iterator::find": (0, None),
+    "std::iter::Iterator::position": (0, None),
+    "std::iter::Iterator::find_map": (0, None),
 }
 # crate wrappers whose generic `f` call is bound through HIGHER_ORDER (not user-callback sites)
 WRAPPERS = ("state::state", "state::try_state", "config::config")
@@ -936,7 +961,8 @@ class Super:
             if e == "*":
                 x = E_deref(x)
             elif isinstance(e, dict) and "f" in e:
-                x = E_field(x, e["n"], e["f"])
+                v = self._variant_payload(x, e["n"], e["f"]) if isinstance(x, tuple) and x and x[0] == "as" else None
+                x = v if v is not None else E_field(x, e["n"], e["f"])
             elif isinstance(e, dict) and "v" in e:
                 x = ("as", x, e["v"])
             elif isinstance(e, dict) and "idx" in e:
@@ -946,6 +972,42 @@ class Super:
             else:
                 x = ("proj", x, str(e))
         return x
+
+    def _variant_payload(self, x, fname, fidx):
+        """`(helper(..) as V).f` where the helper was expanded at that call and builds variant V in exactly one place: that
+        aggregate's operand, in the caller's terms (an accessor returning Some(p) hands p itself to its caller)."""
+        r = strip(x[1])
+        if not (isinstance(r, tuple) and len(r) > 3 and r[0] == "ret" and isinstance(r[3], str)) or not self.ctxs:
+            return None
+        sub = None
+        for c_ in self.ctxs:
+            n_ = c_.call_node
+            if n_ is not None and c_.via in ("call", "virtual") and n_.term["k"] == "call" and "%s:bb%d" % (n_.ctx.fn.npath, n_.bb) == r[3]:
+                if sub is not None:
+                    return None
+                sub = c_
+        if sub is None or sub.fn.id in getattr(self, "_vp_busy", set()):
+            return None
+        fn = sub.fn
+        defs = self._defs(fn).get(0, [])
+        if not defs or 0 in fn._partial or any(d[0] != "stmt" for d in defs):
+            return None
+        hits = []
+        for d in defs:
+            rv = fn.blocks[d[1]]["stmts"][d[2]]["rv"]
+            if rv["k"] != "agg" or rv.get("agg") != "adt":
+                return None
+            if rv["variant"] == x[2]:
+                hits.append(rv)
+        if len(hits) != 1 or fidx is None or fidx >= len(hits[0]["ops"]):
+            return None
+        busy = self.__dict__.setdefault("_vp_busy", set())
+        busy.add(fn.id)
+        try:
+            v = self.resolve_op(sub, hits[0]["ops"][fidx])
+        finally:
+            busy.discard(fn.id)
+        return None if _mentions(v, ("phi", "undef")) else v
 
     def resolve_op(self, ctx, o):
         k = o["k"]
@@ -1383,8 +1445,84 @@ class Super:
                     # every path passes edge `lab`
                     for lit in normalise_literal(e, val, n.term):
                         res.add(lit)
+                        if lit[0][0] == "discr":
+                            res |= self._result_literals(lit[0][1], lit[1], exclude)
         c[key] = res
         return res
+
+    def variant_index(self, agg):
+        """Index of the variant an ('agg','adt',path::Variant,..) expression builds; None if unknown."""
+        if not (isinstance(agg, tuple) and len(agg) > 2 and agg[0] == "agg" and agg[1] == "adt"):
+            return None
+        path, _, var = agg[2].rpartition("::")
+        std = {"std::option::Option": {"None": 0, "Some": 1}, "std::result::Result": {"Ok": 0, "Err": 1}, "std::ops::ControlFlow": {"Continue": 0, "Break": 1}}
+        if path in std:
+            return std[path].get(var)
+        for a in self.P.F.adts.values():
+            if norm_path(a["path"]) == path and a.get("discriminants"):
+                for i, d in enumerate(a["discriminants"]):
+                    if d["variant"] == var:
+                        return d["val"]
+        return None
+
+    def _result_literals(self, X, what, exclude):
+        """`discr(helper(..)) is k` where the helper was expanded at that call and is loop-free: execution passed one of the helper's
+        `_0 = <variant k>{..}` assignments, so every literal that holds at all of those assignments holds here as well (an
+        accessor returning Some(..) only under a test hands that test on to its caller)."""
+        X = strip(X)
+        if not (isinstance(X, tuple) and len(X) > 3 and X[0] == "ret" and isinstance(X[3], str)):
+            return set()
+        sub = None
+        for c_ in self.ctxs:
+            n_ = c_.call_node
+            if n_ is not None and c_.via in ("call", "virtual") and n_.term["k"] == "call" and "%s:bb%d" % (n_.ctx.fn.npath, n_.bb) == X[3]:
+                if sub is not None:
+                    return set()
+                sub = c_
+        if sub is None:
+            return set()
+        fn = sub.fn
+        defs = self._defs(fn).get(0, [])
+        if not defs or 0 in fn._partial or any(d[0] != "stmt" for d in defs):
+            return set()
+        sel = []
+        for d in defs:
+            rv = fn.blocks[d[1]]["stmts"][d[2]]["rv"]
+            if rv["k"] != "agg" or rv.get("agg") != "adt":
+                return set()
+            idx = self.variant_index(("agg", "adt", norm_path(rv["adt"]) + "::" + rv["variant"]))
+            if idx is None:
+                return set()
+            hit = (what[0] == "is" and idx == what[1]) or (what[0] == "not" and idx != what[1]) or (what[0] == "notin" and idx not in what[1])
+            if hit:
+                nd = self.blocks_of.get((sub.id, d[1]))
+                if nd is None:
+                    continue      # that assignment is unreachable in this expansion
+                sel.append(nd)
+        if not sel:
+            return set()
+        lits = None
+        for nd in sel:
+            if on_cycle_simple(self, nd, exclude):
+                return set()
+            L = self.literals_at(nd, exclude)
+            lits = set(L) if lits is None else (lits & L)
+        return lits or set()
+
+
+def on_cycle_simple(S, n, exclude):
+    """n can reach itself."""
+    seen = set()
+    st = list(S.succs(n, None, exclude))
+    while st:
+        x = st.pop()
+        if x is n:
+            return True
+        if x.idx in seen:
+            continue
+        seen.add(x.idx)
+        st.extend(S.succs(x, None, exclude))
+    return False
 
 
 def fresh_literals_at(S, b, exclude=("ui", "u")):
